@@ -271,6 +271,8 @@ class Ctx:
                 "selftest": str(getattr(self, "selftest", None) or "not run in this tier (thorough runs it)"),
                 "known_findings_hit": sorted({k["id"] for _, k in known_hit}),
                 "notes": self.notes[:50],
+                "files": sorted({(o.get("loc") or "").rsplit(":", 1)[0][len(self.root) + 1:] for o in self.obligs
+                                 if (o.get("loc") or "").startswith(self.root + "/")}),
                 "trusted_base": self.trusted,
                 "checker_cmd": "./check %s --tier %s" % (self.prop, self.tier),
                 "exhaustive": True,
